@@ -294,6 +294,29 @@ _op = Op('linalg:eigh_gap', _gen_eigh_gap, _run_eigh_gap, 'linalg')
 _op.only = ('C11',)
 reg(_op)
 
+# eigh with close (but simple) base eigenvalues and a LARGE highest-order coefficient: decisions taken on the base point (which eigenvalues
+# count as repeated) must not look at coefficients the truncated run does not have
+def _gen_eigh_close(rng, Dmax=6, Pmax=3):
+    import numpy.linalg as la
+    D = rng.randint(3, 4); P = rng.randint(1, 2); n = 3
+    A = _rand_utpm(rng, D, P, (n, n))
+    A = 0.5 * (A + A.transpose((0, 1, 3, 2)))
+    for p in range(P):
+        S = numpy.zeros((n, n))
+        for i in range(n):
+            for j in range(i + 1, n):
+                S[i, j] = rng.randint(-3, 3) / 4; S[j, i] = -S[i, j]
+        Q = la.solve(numpy.eye(n) + S, numpy.eye(n) - S)
+        A0 = Q @ numpy.diag([1.0, 1.0 + rng.choice([1e-4, 3e-5, 1e-5]), 3.0]) @ Q.T
+        A[0, p] = 0.5 * (A0 + A0.T)
+    A[D - 1] *= rng.choice([1e4, 1e5, 1e6])
+    return dict(op='linalg:eigh_close', inputs=[A.tolist()])
+
+
+_op = Op('linalg:eigh_close', _gen_eigh_close, _run_eigh_gap, 'linalg')
+_op.only = ('C12',)
+reg(_op)
+
 # trace / transpose / sum of RECTANGULAR matrices (tall with >= 2 more rows than columns, wide)
 def _gen_rect(rng, Dmax=6, Pmax=3):
     D = rng.randint(1, max(1, min(Dmax, 4))); P = rng.randint(1, Pmax)
